@@ -1392,7 +1392,8 @@ def expandTableFile(Eups, ofd, ifd, productList, versionRegexp=None, force=False
 
                 products.append((cmd,
                                  mat.group(1) == "setupOptional",
-                                 "--external" in line, line))
+                                 "--external" in line, line,
+                                 "-j" in args.split()))
         else:
             if block[0]:
                 block = [False, []]
@@ -1408,7 +1409,7 @@ def expandTableFile(Eups, ofd, ifd, productList, versionRegexp=None, force=False
     desiredProducts = []
     optionalProducts = {}
     notFound = {}
-    for productName, optional, isExternal, line in products:
+    for productName, optional, isExternal, line, noRecursion in products:
         if productName == toplevelName:
             continue                    # Don't include product foo in foo.table
         if isExternal:                  # ignore products labelled --external
@@ -1431,7 +1432,7 @@ def expandTableFile(Eups, ofd, ifd, productList, versionRegexp=None, force=False
 
         NVOL.append((productName, version, optional, None))
 
-        if recurse:
+        if recurse and not noRecursion: # a product set up with -j came without its dependencies
             try:
                 NVOL += eups.getDependencies(productName, version, Eups, setup=True, shouldRaise=True)
             except Exception:
